@@ -252,9 +252,10 @@ class Type3Tag(nfc.tag.Tag):
             attributes['ln'] = len(data)  # because we may need to pad zeros
             data = data + bytearray(-len(data) % 16)  # adjust to block size
 
-            # No more than 13 blocks fit into one command frame, a tag
-            # that announces a larger number is written in steps of 13.
-            nbw = min(attributes['nbw'], 13)
+            # No more than 12 blocks fit into one command frame when
+            # the block numbers need 3 byte block list elements, a tag
+            # that announces a larger number is written in steps of 12.
+            nbw = min(attributes['nbw'], 12)
             for i in range(1, last_block_number, nbw):
                 last_block = min(i + nbw, last_block_number)
                 block_data = data[(i-1)*16:(last_block-1)*16]
